@@ -203,7 +203,7 @@ End Copy.
 (* One render of a focused Window(BufferControl) *)
 
 Record cfg := mkcfg {
-  g_wrap : bool; g_margin : bool;
+  g_wrap : bool; g_margin : bool; g_rmargin : bool; g_allow : bool;
   g_top : Z; g_bottom : Z; g_left : Z; g_right : Z;
   g_haspfx : bool; g_pfirst : str; g_pcont : str; g_pvar : bool;
   g_tabstop : Z; g_bflag : bool; g_before : str;
@@ -232,9 +232,11 @@ Fixpoint ndigits_fuel (fuel : nat) (n : Z) : Z :=
   end.
 Definition ndigits (n : Z) : Z := ndigits_fuel 30 n.
 
-(* NumberedMargin.get_width *)
+(* left margin: NumberedMargin.get_width *)
 Definition margin_width (g : cfg) (line_count : Z) : Z :=
   if g_margin g then Z.max 3 (ndigits line_count + 1) else 0.
+(* right margin: ScrollbarMargin.get_width *)
+Definition rmargin_width (g : cfg) : Z := if g_rmargin g then 1 else 0.
 
 (* Document.cursor_position_row / _col *)
 Definition cursor_row (text : str) (cursor : Z) : Z := count_char NL (slice_to text cursor).
@@ -248,7 +250,7 @@ Fixpoint zrange (a : Z) (n : nat) : list Z :=
   match n with O => [] | S k => a :: zrange (a + 1) k end.
 
 Record rendered := mkrend {
-  r_status : Z; r_st : sstate; r_mw : Z; r_ui : Z * Z; r_cursor : Z * Z;
+  r_status : Z; r_st : sstate; r_mw : Z; r_bw : Z; r_ui : Z * Z; r_cursor : Z * Z;
   r_look : list (list (option (Z * Z))); r_extra : Z;
   r_vlook : list (option (Z * Z)); r_grid : list (list str) }.
 
@@ -271,7 +273,7 @@ Definition render_gen (fixed : bool) (g : cfg) (W Hh xpos ypos : Z) (text : str)
     | Some ucol =>
       let nlines := len lines in
       let mw := margin_width g nlines in
-      let bw := W - mw in
+      let bw := W - mw - rmargin_width g in
       let sw := tab_sw g in
       let pfx := cfg_pfx g in
       let line_of l := nth (Z.to_nat l) lines [] in
@@ -279,9 +281,9 @@ Definition render_gen (fixed : bool) (g : cfg) (W Hh xpos ypos : Z) (text : str)
       let tbh s := height_for_line sw (g_haspfx g) pfx (line_of row) row bw (Some s) in
       let st' :=
         if g_wrap g then
-          scroll_wrap_gen fixed false Hf tbh bw Hh (g_top g) (g_bottom g) row ucol nlines st
+          scroll_wrap_gen fixed (g_allow g) Hf tbh bw Hh (g_top g) (g_bottom g) row ucol nlines st
         else
-          scroll_nowrap false sw (line_of row)
+          scroll_nowrap (g_allow g) sw (line_of row)
             (if g_haspfx g then strw sw (pfx row 0) else 0)
             bw Hh (g_top g) (g_bottom g) (g_left g) (g_right g) row ucol nlines st in
       let out := copy_body sw (tab_dw g) (tab_disp g) (g_wrap g) (g_haspfx g) pfx
@@ -294,7 +296,7 @@ Definition render_gen (fixed : bool) (g : cfg) (W Hh xpos ypos : Z) (text : str)
       let grid := map (fun y => map (fun x => cstr (scr_get (cscr out) (y + ypos) (x + xpos + mw)))
                                     (zrange 0 (Z.to_nat bw)))
                       (zrange 0 (Z.to_nat Hh)) in
-      Some (mkrend 0 st' mw (row, ucol) cur look (len (cr2 out) - count_some look) vlook grid)
+      Some (mkrend 0 st' mw bw (row, ucol) cur look (len (cr2 out) - count_some look) vlook grid)
     end
   end.
 
@@ -305,7 +307,7 @@ Definition rendered_cursor_ok (W Hh xpos ypos : Z) (r : rendered) : bool :=
   | Some row =>
       match nth_error row (Z.to_nat (snd (r_ui r))) with
       | Some (Some (y, x)) =>
-          (ypos <=? y) && (y <? ypos + Hh) && (xpos + r_mw r <=? x) && (x <? xpos + W)
+          (ypos <=? y) && (y <? ypos + Hh) && (xpos + r_mw r <=? x) && (x <? xpos + r_mw r + r_bw r)
       | _ => false
       end
   | None => false
@@ -339,7 +341,7 @@ Definition sx_oyx (o : option (Z * Z)) : sx :=
   match o with Some p => sx_yx p | None => L [] end.
 
 Definition enc_rendered (r : rendered) : sx :=
-  L [A (r_status r); A (vs (r_st r)); A (vs2 (r_st r)); A (hs (r_st r)); A (r_mw r);
+  L [A (r_status r); A (vs (r_st r)); A (vs2 (r_st r)); A (hs (r_st r)); A (r_mw r); A (r_bw r);
      sx_yx (r_ui r); sx_yx (r_cursor r);
      L (map (fun row => L (map sx_oyx row)) (r_look r)); A (r_extra r);
      L (map sx_oyx (r_vlook r));
@@ -353,12 +355,13 @@ Definition dec_tab_entry (s : sx) : option (Z * (Z * Z * str)) :=
 
 Definition dec_cfg (s tab : sx) : option cfg :=
   match s, tab with
-  | L [w; m; L [A t; A b; A l; A r]; L [pk; pf; pc; pv]; A ts; L [bf; be]], L tabl =>
-      match as_bool w, as_bool m, as_bool pk, as_str pf, as_str pc, as_bool pv,
+  | L [w; A m; L [A t; A b; A l; A r]; L [pk; pf; pc; pv]; A ts; L [bf; be]; al], L tabl =>
+      match as_bool w, as_bool al, as_bool pk, as_str pf, as_str pc, as_bool pv,
             as_bool bf, as_str be, map_opt dec_tab_entry tabl with
-      | Some w', Some m', Some pk', Some pf', Some pc', Some pv', Some bf', Some be', Some tab' =>
-          if ts <? 0 then None else
-          Some (mkcfg w' m' t b l r pk' pf' pc' pv' ts bf' be' tab')
+      | Some w', Some al', Some pk', Some pf', Some pc', Some pv', Some bf', Some be', Some tab' =>
+          if (ts <? 0) || (m <? 0) || (3 <? m) then None else
+          (* margins: 1 = left NumberedMargin, 2 = right ScrollbarMargin, 3 = both *)
+          Some (mkcfg w' (Z.odd m) (2 <=? m) al' t b l r pk' pf' pc' pv' ts bf' be' tab')
       | _, _, _, _, _, _, _, _, _ => None
       end
   | _, _ => None
